@@ -49,7 +49,7 @@ def shift_job(spec, size):
         d = inp['delta']
         base = dict(ref=inp['ref'], est=inp['est'], kw=inp['kw'])
         r1 = spec.call(base)
-        r2 = spec.call(spec.shift(base, d))
+        r2 = A.second(lambda: spec.call(spec.shift(base, d)))
         for (nm, kind), v in zip(spec.outs, r1):
             A.observe(nm, v)
         for (nm, kind), a, b in zip(spec.outs, r1, r2):
@@ -121,7 +121,7 @@ def perm_notes_job(spec, size):
         for pe in (list(itertools.permutations(range(m)))[1:4] or [tuple(range(m))]):
             pe = list(pe)
             p = dict(ref=tuple(a[pr] for a in inp['ref']), est=tuple(a[pe] for a in inp['est']), kw=inp['kw'])
-            r2 = spec.call(p)
+            r2 = A.second(lambda: spec.call(p))
             for i in range(3):
                 A.require(A.eq(r1[i], r2[i]), '%s.%s:unchanged-by-note-order' % (spec.name, spec.outs[i][0]))
     return Job('C08', 'permute-notes:%s[%dx%d]' % (spec.name, n, m), build, body, funcs=spec.funcs, bounds=dict(size=size), exact_floats=False,
@@ -139,7 +139,7 @@ def perm_multipitch_job():
         rt, rf = inp['ref']
         et, ef = inp['est']
         p = dict(ref=(rt, [f[::-1] for f in rf]), est=(et, [f[::-1] for f in ef]), kw=inp['kw'])
-        r2 = spec.call(p)
+        r2 = A.second(lambda: spec.call(p))
         for i, (nm, kind) in enumerate(spec.outs):
             A.observe(nm, r1[i])
             A.require(A.eq(r1[i], r2[i]), 'multipitch.metrics.%s:unchanged-by-frequency-order-within-frame' % nm)
@@ -155,7 +155,7 @@ def perm_tempo_job():
     def body(A, inp):
         r1 = spec.call(inp)
         p = dict(ref=inp['ref'], est=(inp['est'][0][::-1],), kw=inp['kw'])
-        r2 = spec.call(p)
+        r2 = A.second(lambda: spec.call(p))
         for i, (nm, kind) in enumerate(spec.outs):
             A.observe(nm, r1[i])
             A.require(A.eq(r1[i], r2[i]), 'tempo.detection.%s:unchanged-by-order-of-estimated-tempi' % nm)
@@ -173,7 +173,7 @@ def perm_patterns_job(spec, size, n=None):
     def body(A, inp):
         r1 = spec.call(inp)
         p = dict(ref=(inp['ref'][0][::-1],), est=inp['est'], kw=inp['kw'])
-        r2 = spec.call(p)
+        r2 = A.second(lambda: spec.call(p))
         for i, (nm, kind) in enumerate(spec.outs):
             A.observe(nm, r1[i])
             A.require(A.eq(r1[i], r2[i]), '%s.%s:unchanged-by-order-of-reference-patterns' % (spec.name, nm))
@@ -203,7 +203,7 @@ def relabel_job(spec, size):
         for k in range(2):
             mr, me = maps[0][k], maps[1][1 - k]
             p = dict(ref=(ri, [mr[x] for x in rl]), est=(ei, [me[x] for x in el]), kw=inp['kw'])
-            r2 = spec.call(p)
+            r2 = A.second(lambda: spec.call(p))
             for i, (nm, kind) in enumerate(spec.outs):
                 A.require(A.eq(r1[i], r2[i]), '%s.%s:unchanged-by-label-bijection' % (spec.base, nm))
     return Job('C08', 'relabel:%s' % spec.name, build, body, funcs=spec.funcs, bounds=dict(size=size), exact_floats=False, timeout_s=1500)
@@ -229,7 +229,7 @@ def relabel_hier_job(size, rpat, epat):
 
         def ren(ls, tag):
             return [['%s_%s' % (tag, x.lower()[::-1]) for x in level] for level in ls]
-        r2 = spec.call(dict(ref=(rh, ren(rl, 'p')), est=(eh, ren(el, 'q')), kw=inp['kw']))
+        r2 = A.second(lambda: spec.call(dict(ref=(rh, ren(rl, 'p')), est=(eh, ren(el, 'q')), kw=inp['kw'])))
         for i, (nm, kind) in enumerate(spec.outs):
             A.observe(nm, r1[i])
             A.require(A.eq(r1[i], r2[i]), 'hierarchy.lmeasure.%s:unchanged-by-label-bijection' % nm)
